@@ -42,7 +42,15 @@ RULE = (
     'ioapi_base.interpSigma(conserve) on float64 fields: '
     'sum(v\' dsigma\') == sum(v dsigma) per column and constant in -> '
     'constant out (rtol 1e-6); interpSigma(linear) equals the reference on '
-    'layer mid-points.  Raises are counted, never violations (R3).  '
+    'layer mid-points; vgtop argument absent / equal to the file VGTOP / '
+    'different (10000, 7500, 2500, 0 Pa): target edges are drawn in the '
+    'file\'s sigma coordinate and handed over converted by pressure equality '
+    'p = vgtop + sigma (101325 - vgtop) (101325 Pa is the surface pressure '
+    'the library assumes), the oracle converts the source the same way in '
+    'float64 and allows rtol 1e-4 there because the library converts in the '
+    'float32 precision of VGLVLS; 1-3 successive interpSigma calls on the '
+    'SAME file object with different targets / interptypes / vgtop, every '
+    'call judged against the original source.  Raises are counted, never violations (R3).  '
     'Non-trivial: interleaved edges/targets, or a non-leading interpolation '
     'axis, or a descending coordinate.  Distinct by sha1 of the case spec.')
 ASSUMPTIONS = ['float64 arithmetic with dyadic inputs; tolerance 1e-9 '
@@ -216,6 +224,11 @@ def sigma_edges(draw, top, bot, nlay):
     return [k / 64. for k in sorted([top, bot] + inner, reverse=True)]
 
 
+FILE_VGTOP = 5000.
+# vgtop argument: absent, equal to the file's VGTOP, or a different model top
+VGTOPS = [None, None, FILE_VGTOP, 10000., 2500., 7500., 0.]
+
+
 @st.composite
 def case_sigma(draw):
     top = 64
@@ -243,12 +256,27 @@ def case_sigma(draw):
         dst = sorted(set([dst[0], dst[-1], extra] + inner), reverse=True)
     nt, nr, nc = draw(st.integers(1, 2)), draw(st.integers(1, 2)), \
         draw(st.integers(1, 3))
-    return dict(kind='sigma', src=src, dst=dst, shape=[nt, nr, nc],
+    spec = dict(kind='sigma', src=src, dst=dst, shape=[nt, nr, nc],
                 field=_field(draw, nt * nl * nr * nc),
                 const=draw(st.integers(-40, 40)) / 4.,
                 interptype=draw(st.sampled_from(['conserve', 'conserve',
                                                  'linear'])),
-                extrapolate=draw(st.booleans()))
+                extrapolate=draw(st.booleans()),
+                vgtop=draw(st.sampled_from(VGTOPS)))
+    # 0-2 further regriddings of the SAME file object, each with its own
+    # target grid / interptype / vgtop and each judged against the original
+    # source (a call must not disturb the file it reads)
+    more = []
+    for _ in range(draw(st.sampled_from([0, 0, 1, 1, 2]))):
+        m2 = draw(st.sampled_from([1, 2, 3, 4, 6]))
+        d2 = draw(sigma_edges(top, bot, m2))
+        more.append(dict(dst=d2,
+                         interptype=draw(st.sampled_from(['conserve',
+                                                          'linear'])),
+                         extrapolate=draw(st.booleans()),
+                         vgtop=draw(st.sampled_from(VGTOPS))))
+    spec['more'] = more
+    return spec
 
 
 def strategy(tier):
@@ -567,16 +595,65 @@ def check_sigma(spec, r):
                        'but target thickness is %r (src=%r, dst=%r)' % (
                            th.tolist(), ddst.tolist(), src.tolist(),
                            dst.tolist()), klass='coeff')
-    # ---- file level
+    # ---- file level: one file, one or more successive regriddings
     field = np.array(spec['field'], dtype='d').reshape(nt, nl, nr, nc)
     const = np.full((nt, nl, nr, nc), spec['const'], dtype='d')
     f = ioapi_base.from_arrays(
         FLD=field, CST=const,
-        fileattrs=dict(VGLVLS=src.astype('f'), VGTOP=np.float32(5000.),
+        fileattrs=dict(VGLVLS=src.astype('f'), VGTOP=np.float32(FILE_VGTOP),
                        SDATE=2000001, STIME=0, TSTEP=10000))
+    calls = [dict(dst=spec['dst'], interptype=spec['interptype'],
+                  extrapolate=spec['extrapolate'],
+                  vgtop=spec.get('vgtop'))] + list(spec.get('more') or [])
+    r.label('calls:%d' % len(calls))
+    if len(calls) > 1 or any(c.get('vgtop') not in (None, FILE_VGTOP)
+                             for c in calls):
+        r.nontrivial = True
+    for ci, call in enumerate(calls):
+        _sigma_call(f, src, call, field, spec['const'], r, ci)
+        if r.failures:
+            return
+
+
+def sigma_convert(sig, vgtop_from, vgtop_to, psfc=101325.):
+    """sigma levels re-expressed for another model top, from pressure
+    equality p = vgtop + sigma * (psfc - vgtop) with the surface pressure
+    the library assumes (101325 Pa)"""
+    p = vgtop_from + np.asarray(sig, dtype='d') * (psfc - vgtop_from)
+    return (p - vgtop_to) / (psfc - vgtop_to)
+
+
+def _sigma_call(f, src, call, field, constval, r, ci):
+    nt, nl, nr, nc = field.shape
+    it = call['interptype']
+    vgtop = call.get('vgtop')
+    rescale = vgtop is not None and vgtop != FILE_VGTOP
+    dst0 = np.array(call['dst'], dtype='d')
+    ml = dst0.size - 1
+    if rescale:
+        # target edges are drawn in the file's sigma coordinate (sharing
+        # top and bottom with the source) and handed over expressed for the
+        # requested top; the library converts the source the same way
+        dst = sigma_convert(dst0, FILE_VGTOP, vgtop)
+        srcv = sigma_convert(src, FILE_VGTOP, vgtop)
+        # the library converts in the float32 precision of VGLVLS
+        rtol_mass, rtol_lin = 1e-4, 1e-4
+        r.label('vgtop:different')
+    else:
+        dst = dst0
+        srcv = src
+        rtol_mass, rtol_lin = 1e-6, TOL
+        r.label('vgtop:%s' % ('absent' if vgtop is None else 'same'))
+    tag = ('call%d' % ci if ci == 0 else 'call>=1') + \
+        ('/vgtop' if rescale else '')
+    r.label('call%d:%s' % (min(ci, 1), it))
+    dsrc = -np.diff(srcv)
+    ddst = -np.diff(dst)
     kw = dict(interptype=it)
+    if vgtop is not None:
+        kw['vgtop'] = vgtop
     if it == 'linear':
-        kw['extrapolate'] = bool(spec['extrapolate'])
+        kw['extrapolate'] = bool(call['extrapolate'])
         r.label('extrapolate:%s' % kw['extrapolate'])
     with np.errstate(all='ignore'):
         exc, o = attempt(f.interpSigma, dst.copy(), **kw)
@@ -587,46 +664,49 @@ def check_sigma(spec, r):
     gotc = np.asarray(o.variables['CST'][...], dtype='d')
     if got.shape != (nt, ml, nr, nc):
         r.fail('sigma-shape', 'FLD has shape %r after interpSigma, expected '
-               '%r' % (got.shape, (nt, ml, nr, nc)), klass=it)
+               '%r' % (got.shape, (nt, ml, nr, nc)), klass=it + '/' + tag)
         return
+    what = '(call %d, vgtop=%r, src=%r, dst=%r)' % (ci, vgtop, src.tolist(),
+                                                    dst0.tolist())
     if it == 'conserve':
-        klass = 'conserve'
-        sc = _scale(const)
-        if not (np.abs(gotc - spec['const']) <= 1e-6 * sc).all():
-            r.fail('constant-field', 'constant %r became %r (src=%r, dst=%r)'
-                   % (spec['const'], np.unique(gotc).tolist()[:6],
-                      src.tolist(), dst.tolist()), klass=klass)
+        klass = 'conserve/' + tag
+        sc = _scale(constval)
+        if not (np.abs(gotc - constval) <= 1e-6 * sc).all():
+            r.fail('constant-field', 'constant %r became %r %s'
+                   % (constval, np.unique(gotc).tolist()[:6], what),
+                   klass=klass)
         mass0 = (field * dsrc[None, :, None, None]).sum(1)
         mass1 = (got * ddst[None, :, None, None]).sum(1)
         sc = _scale(np.abs(field).sum(1) * 1.0)
-        if not (np.abs(mass1 - mass0) <= 1e-6 * sc).all():
-            bad = np.argwhere(~(np.abs(mass1 - mass0) <= 1e-6 * sc))[0]
-            r.fail('column-mass', 'column %r: sum(v dsigma) %r -> %r '
-                   '(src=%r, dst=%r)' % (tuple(bad.tolist()),
-                                         mass0[tuple(bad)],
-                                         mass1[tuple(bad)], src.tolist(),
-                                         dst.tolist()), klass=klass)
+        if not (np.abs(mass1 - mass0) <= rtol_mass * sc).all():
+            bad = np.argwhere(~(np.abs(mass1 - mass0) <= rtol_mass * sc))[0]
+            r.fail('column-mass', 'column %r: sum(v dsigma) %r -> %r %s' % (
+                tuple(bad.tolist()), mass0[tuple(bad)], mass1[tuple(bad)],
+                what), klass=klass)
     else:
         ex = kw['extrapolate']
         klass = 'linear/' + ('nlay=1' if nl == 1 else
                              ('extrap' if ex else 'clip'))
-        zs = (src[:-1] + src[1:]) / 2
+        if ci or rescale:
+            klass += '/' + tag
+        zs = (srcv[:-1] + srcv[1:]) / 2
         nzs = (dst[:-1] + dst[1:]) / 2
         want = ref_along(zs, field, 1, nzs, ex)
         sc = _scale(field, want)
-        if not (np.abs(got - want) <= TOL * sc).all():
-            bad = np.argwhere(~(np.abs(got - want) <= TOL * sc))[0]
+        if not (np.abs(got - want) <= rtol_lin * sc).all():
+            bad = np.argwhere(~(np.abs(got - want) <= rtol_lin * sc))[0]
             r.fail('sigma-linear', 'interpSigma(linear) at %r: got %r, '
-                   'reference %r (mid-points %r -> %r)' % (
+                   'reference %r (mid-points %r -> %r) %s' % (
                        tuple(bad.tolist()), got[tuple(bad)],
-                       want[tuple(bad)], zs.tolist(), nzs.tolist()),
+                       want[tuple(bad)], zs.tolist(), nzs.tolist(), what),
                    klass=klass)
-        sc = _scale(const)
-        if not (np.abs(gotc - spec['const']) <= TOL * sc).all():
-            r.fail('constant-field', 'linear: constant %r became %r' % (
-                spec['const'], np.unique(gotc).tolist()[:6]), klass=klass)
+        sc = _scale(constval)
+        ctol = 1e-6 if rescale else TOL   # float32 weights when rescaling
+        if not (np.abs(gotc - constval) <= ctol * sc).all():
+            r.fail('constant-field', 'linear: constant %r became %r %s' % (
+                constval, np.unique(gotc).tolist()[:6], what), klass=klass)
     nv = np.asarray(o.VGLVLS, dtype='d')
-    if nv.shape != dst.shape or not np.array_equal(nv, dst):
+    if nv.shape != dst.shape or not np.array_equal(nv, dst.astype('f')):
         r.fail('sigma-vglvls', 'VGLVLS after interpSigma %r, requested %r' %
                (nv.tolist(), dst.tolist()), klass=it)
 
@@ -653,6 +733,5 @@ known.register('C17-single-level', lambda spec, f: (
     (spec['kind'] == 'weights' and len(spec['xs']) == 1 and
      f.clause == 'weights-finite' and f.klass == 'n=1') or
     (spec['kind'] == 'sigma' and len(spec['src']) == 2 and
-     spec['interptype'] == 'linear' and
      f.clause in ('sigma-linear', 'constant-field') and
-     f.klass == 'linear/nlay=1' and 'nan' in f.detail)))
+     f.klass.startswith('linear/nlay=1') and 'nan' in f.detail)))
